@@ -391,7 +391,20 @@ func (e *SpecEnv) goObject(o types.Object) (Val, bool) {
 			return TV{StringConst(constant.StringVal(c.Val())), c.Type()}, true
 		}
 	case *types.Var:
-		// package-level variable: immutable symbolic global (same symbol the executor uses)
+		// package-level variable: immutable symbolic global (same term the executor uses: the
+		// evaluated initialiser for single-assignment specifier / integer variables)
+		if sp := e.ex.P.SSA.Package(c.Pkg()); sp != nil {
+			if g, ok := sp.Members[c.Name()].(*ssa.Global); ok {
+				var got *Term
+				func() {
+					defer func() { recover() }()
+					got = e.ex.P.specifierConst(g)
+				}()
+				if got != nil {
+					return TV{got, c.Type()}, true
+				}
+			}
+		}
 		name := "global:" + c.Pkg().Name() + "." + c.Name()
 		return TV{Sym(name, SortOf(c.Type())), c.Type()}, true
 	}
